@@ -52,6 +52,10 @@ def judge(case, obs):
             out.append(("C16:%s:send-%s%s" % (drv, rec["status"], (":" + rec.get("exception", "")) if rec.get("exception") else ""),
                         "%s: %s %s (raised in %s)" % (where, rec["status"], rec.get("exception_repr", ""), lib)))
             continue
+        if rec.get("marker_got"):
+            out.append(("C16:%s:answer-handed-to-sleep-or-progress-item" % drv,
+                        "%s: a sleep/progress item of the sequence was resumed with %r instead of nothing - an answer left "
+                        "over from an earlier command" % (where, rec["marker_got"][:2])))
         cmds = [c for c in cspec["cmds"] if c["k"] not in ("sleep", "progress")]
         if len(rec["results"]) != len(cmds):
             out.append(("C16:%s:result-count" % drv, "%s: %d results for %d commands" % (where, len(rec["results"]), len(cmds))))
@@ -268,8 +272,12 @@ def async_case(draw, driver=None):
         if serial_dt_needs_seq and kind in ("send", "txn") and any(c["k"] in DT16 for c in cmds):
             kind = "seq"      # single sends of device-type commands on the serial drivers are judged by C15
         if kind == "seq" and draw(st.booleans()):
-            cmds.insert(draw(st.integers(0, len(cmds))), {"k": "sleep", "d": draw(st.sampled_from([0.001, 0.02, 0.11]))})
+            for _ in range(draw(st.integers(1, 2))):
+                item = {"k": "sleep", "d": draw(st.sampled_from([0.001, 0.02, 0.11]))} if draw(st.booleans()) else {"k": "progress"}
+                cmds.insert(draw(st.integers(0, len(cmds))), item)
         callers.append({"kind": kind, "cmds": cmds, "t0": draw(st.sampled_from([0.0, 0.0, 0.005, 0.03, 0.06, 0.12]))})
+        if kind != "par" and draw(st.integers(0, 2)) == 0:
+            callers[-1]["vandal"] = True      # this caller edits the frames of the answers it is handed
     case = {"driver": drv, "callers": callers, "lat": draw(st.lists(st.floats(0, 0.999), max_size=24)),
             "tie": draw(st.booleans())}
     if drv == "tridonic":
@@ -329,6 +337,10 @@ def features(case):
         return f
     if len(case["callers"]) > 1:
         f.append("multi-caller")
+    if any(c.get("vandal") for c in case["callers"]):
+        f.append("caller-edits-its-answers")
+    if any(x["k"] in ("sleep", "progress") for c in case["callers"] for x in c["cmds"]):
+        f.append("sequence-with-sleep-or-progress-items")
     if any(x["kind"] == "stale-answer" for x in case.get("inject", [])):
         f.append("stale-answer")
     if any(x["kind"] == "idle" for x in case.get("inject", [])):
